@@ -7,7 +7,7 @@ lib.shim()
 REPO = lib.REPO
 
 
-def _defs(sources: dict[str, str], cache_enabled: bool = True, extra: dict | None = None):
+def _defs(sources: dict[str, str], cache_enabled: bool = True, extra: dict | None = None, templates: dict[str, str] | None = None):
     from rogw.tranp.app.dir import tranp_dir
     from rogw.tranp.lang.module import to_fullyname
     from rogw.tranp.module.types import ModulePath, ModulePaths
@@ -27,7 +27,16 @@ def _defs(sources: dict[str, str], cache_enabled: bool = True, extra: dict | Non
     from rogw.tranp.app.env import DataEnvPath
 
     def make_renderer_setting(i18n: I18n, emitter: RendererEmitter) -> RendererSetting:
-        return RendererSetting([os.path.join(tranp_dir(), 'data/cpp/template')], i18n.t, emitter,
+        dirs = [os.path.join(tranp_dir(), 'data/cpp/template')]
+        if templates:
+            # user templates (relative path -> text): a template directory in front of the stock one, as `template_dirs` of a configuration
+            udir = os.path.join(os.getcwd(), 'user_templates_%x' % (hash(tuple(sorted(templates.items()))) & 0xffffffff))
+            for rel, text in templates.items():
+                os.makedirs(os.path.dirname(os.path.join(udir, rel)), exist_ok=True)
+                with open(os.path.join(udir, rel), 'w') as f:
+                    f.write(text)
+            dirs.insert(0, udir)
+        return RendererSetting(dirs, i18n.t, emitter,
                                {'immutable_param_types': ['std::string', 'std::vector', 'std::map', 'std::function']})
 
     def sp(sources_: ISourceLoader):
@@ -60,11 +69,11 @@ def _defs(sources: dict[str, str], cache_enabled: bool = True, extra: dict | Non
 class Session:
     """One application instance (one DI container) over a mutable dict of in-memory sources."""
 
-    def __init__(self, sources: dict[str, str], cache_enabled: bool = True, extra: dict | None = None):
+    def __init__(self, sources: dict[str, str], cache_enabled: bool = True, extra: dict | None = None, templates: dict[str, str] | None = None):
         from rogw.tranp.app.app import App
         assert os.path.realpath(os.getcwd()) != os.path.realpath(REPO), 'never run tranp with cwd=/repo'
         self.sources = sources
-        self.app = App(_defs(sources, cache_enabled, extra))
+        self.app = App(_defs(sources, cache_enabled, extra, templates))
 
     def resolve(self, sym):
         return self.app.resolve(sym)
